@@ -21,6 +21,7 @@
   filled with a packet (`Moves.filled`).
 -/
 import PosterModel.Lemmas.WorldReach
+import PosterModel.Lemmas.ScriptIds
 import PosterModel.Lemmas.CtxDecodeWf
 import PosterModel.Properties.C05
 
@@ -940,7 +941,7 @@ theorem emit_ev_move (w : World) (e : Ev) : Move none w (w.emit (.ev e)) :=
 
 /-! ## association-list facts used by the invariants -/
 
-theorem lookupFirst_of_mem_nodup {β} (k : Nat) (v : β) (l : List (Nat × β)) (hn : (l.map (·.1)).Nodup)
+theorem lookupFirst_of_mem_nodupO {β} (k : Nat) (v : β) (l : List (Nat × β)) (hn : (l.map (·.1)).Nodup)
     (h : (k, v) ∈ l) : lookupFirst k l = some v := by
   induction l with
   | nil => cases h
@@ -988,7 +989,7 @@ theorem mem_setAssoc_nodup {β} (k j : Nat) (v v0 x : β) (l : List (Nat × β))
   · subst hj
     left
     have hn' : ((setAssoc j v l).map (·.1)).Nodup := by rw [setAssoc_keys_of_lookup j v v0 l hl]; exact hn
-    have h1 := lookupFirst_of_mem_nodup j x _ hn' h
+    have h1 := lookupFirst_of_mem_nodupO j x _ hn' h
     rw [lookupFirst_setAssoc_self] at h1
     exact ⟨rfl, (Option.some.inj h1).symm⟩
   · right
@@ -1574,12 +1575,7 @@ theorem Good.mono {U V : Nat → Prop} {w : World} (h : Good U w) (huv : ∀ x, 
   ⟨h.ops, h.kind.mono huv, h.noUnr⟩
 
 /-- the operation id a script event issues -/
-def evOpId : Ev → Option Nat
-  | .op id _ _ => some id
-  | _ => none
 
-/-- the operation ids a script issues, in order -/
-def opIds (evs : List Ev) : List Nat := evs.filterMap evOpId
 
 theorem Good.step {U : Nat → Prop} {w : World} (h : Good U w) (e : Ev) (hu : ∀ id, evOpId e = some id → ¬ U id) :
     Good (fun x => U x ∨ evOpId e = some x) (w.step e) := by
